@@ -48,6 +48,9 @@ type DelScenario struct {
 	Handlers      []HandlerSpec `json:"handlers"`
 	DeadlineSteps int           `json:"deadline_steps,omitempty"` // ctx deadline = this many handler sleeps (only with a sleep handler)
 	Cont          []StoreOp     `json:"cont"`
+	// BelowQueued > 0: that many headers right below the tail are appended immediately before the deletion is
+	// called, so they are still in the write queue when it starts; the range was chosen against the old tail
+	BelowQueued int `json:"below_queued,omitempty"`
 }
 
 var delContKinds = []string{"append_next", "append_next", "sync", "settle", "restart_new", "restart_stopstart", "append_repeat", "append_fill"}
@@ -74,6 +77,9 @@ func genDel(t *rapid.T, faulty bool) DelScenario {
 	default:
 		s.FromSel = rapid.IntRange(0, selCount-1).Draw(t, "fromsel")
 		s.ToSel = rapid.IntRange(0, selCount-1).Draw(t, "tosel")
+	}
+	if s.Base > 1 && rapid.IntRange(0, 5).Draw(t, "belowq") == 0 {
+		s.BelowQueued = rapid.IntRange(1, int(min(s.Base-1, 3))).Draw(t, "belowqueued")
 	}
 	nh := rapid.IntRange(0, 3).Draw(t, "nhandlers")
 	for i := 0; i < nh; i++ {
@@ -329,6 +335,25 @@ func runDel(t *testing.T, s DelScenario) (r08, r14 Result) {
 			return out
 		}
 		before := readable()
+		belowQueued := false
+		if s.BelowQueued > 0 && e.m.has && e.m.T > uint64(s.BelowQueued) {
+			// older headers arrive (backward sync) and are queued right when the deletion is called: the range,
+			// chosen against the tail of a moment ago, is judged against the chain including them
+			lo := e.m.T - uint64(s.BelowQueued)
+			hs := e.chain.Range(lo, e.m.T)
+			if err := e.st.Append(ctx, hs...); err != nil {
+				fail08("Append below the tail failed: %v", err)
+				return
+			}
+			e.m.appendBatch(heightsOf(hs))
+			for _, h := range hs {
+				before[h.H] = true
+			}
+			valid, whole = e.m.deleteValid(from, to)
+			obs.Valid, obs.Whole = valid, whole
+			belowQueued = true
+			r08.label("older_headers_queued_at_the_call")
+		}
 
 		dctx, dcancel := ctx, context.CancelFunc(func() {})
 		if s.DeadlineSteps > 0 {
@@ -423,7 +448,7 @@ func runDel(t *testing.T, s DelScenario) (r08, r14 Result) {
 				fail08("rejected DeleteRange(%d,%d) had an effect: %s", from, to, v)
 				break
 			}
-			if ka := e.mem.Keys(); fmt.Sprint(ka) != fmt.Sprint(keysBefore) {
+			if ka := e.mem.Keys(); !belowQueued && fmt.Sprint(ka) != fmt.Sprint(keysBefore) {
 				fail08("rejected DeleteRange(%d,%d) changed the datastore key set", from, to)
 			}
 			if len(obs.Calls) > 0 {
